@@ -14,12 +14,20 @@
   `lalr_pairs` / `lalr_triples` / the shape theorems.  The token-level printer is tied to the real
   `String()` by the stream `refprint`.
 
-  What is proved, for EVERY query AST `q` (no bound on size):
-    refparse_tokens_roundtrip   Printable q → refParse (tokens the printer writes for q) = q
-    lex_printed_tokens          (lex_respace) adjacency condition → tokenize (render items) = tokens
-    printer_output_spaced       Printable q → the printer's own output satisfies that condition
-    print_parse_roundtrip_ref   Printable q → refParse (tokenize (print q)) = q
-    print_parse_roundtrip_tables  … and, under RefAgreesWithTables, Parse (print q) has the AST of q
+  What is proved, for EVERY query AST `q` / program `p` (no bound on size):
+    refparse_tokens_roundtrip     Printable q → refParse (tokens the printer writes for q) = q
+    left_operand_needs_no_parentheses   the heart of it: precedence table vs. the printer's missing parentheses
+    lex_one_token, lex_skips_white, comment_is_gap, white_gap_separates, glue_counterexample
+    lex_respace, lex_tokens_with_gaps   (lex_respace) tokens with arbitrary gaps of white space / comments
+    lex_printed_tokens(_from)     the same for the printer's separators sp / soft / nl
+    printer_output_spaced         Printable q → the printer's own output satisfies the adjacency condition
+    print_parse_roundtrip_ref     Printable q → refParse (tokenize (print q)) = q
+    parser_image_has_operator_shape, parser_image_printable   THE IMAGE: what the reference parser returns is Printable
+    print_parse_roundtrip_of_accepted   for every source it accepts (well-formed tokens): print, lex, parse = same AST
+    valid_utf8_string_is_printable      string values
+    print_parse_roundtrip_program_ref   whole programs: module header, imports, definitions-only bodies
+    print_parse_roundtrip_tables / _program_tables   … and, under RefAgreesWithTables, for Parse on the shipped tables
+    not_printable_…               six witnesses that the side condition is needed
   `Printable` (Model: `okQ true 1`) is the decidable shape invariant of the parser's image.
 -/
 import Gojq.Proofs.RoundTripMain
